@@ -392,6 +392,16 @@ pub fn encode_fti(f: &Fti) -> Vec<u8> {
             e.push(f.al.unwrap_or(0) as u8);
             push_be(&mut e, 0, 2);
         }
+        FEC_RS2M => {
+            // RFC 5510 s4.2.4: L(48) m(8) G(8) E(16) B(16) max_n(16); m and G travel in (z, n) here
+            e[1] = 4;
+            push_be(&mut e, f.transfer_length as u128, 6);
+            e.push(f.z.unwrap_or(8) as u8);
+            e.push(f.n.unwrap_or(1) as u8);
+            push_be(&mut e, f.e as u128, 2);
+            push_be(&mut e, f.b.unwrap_or(0) as u128, 2);
+            push_be(&mut e, f.max_n.unwrap_or(0) as u128, 2);
+        }
         _ => {
             e[1] = 1;
             push_be(&mut e, 0, 2);
